@@ -12,6 +12,7 @@ class CaseTimeout(BaseException):
 
 
 def _alarm(*_):
+    # the timer repeats: should an `except BaseException` on the way out swallow the timeout, it fires again
     raise CaseTimeout()
 
 
@@ -30,6 +31,8 @@ def main():
         resource.setrlimit(resource.RLIMIT_AS, (4 << 30, 4 << 30))
     except Exception:
         pass
+    signal.signal(signal.SIGALRM, _alarm)
+    signal.setitimer(signal.ITIMER_REAL, 90, 5)        # start-up (imports, default database, impl_init) must not hang either
     try:
         # as after `from scapy.all import *`: application-layer bindings are loaded, so a TCP payload to port 53 is dissected as a DNS
         # layer (not Raw) -- it is payload all the same
@@ -45,6 +48,7 @@ def main():
         pass
     mod = importlib.import_module("harness.props." + prop.lower())
     impl = mod.impl_init()
+    signal.setitimer(signal.ITIMER_REAL, 0)
     signal.signal(signal.SIGALRM, _alarm)
     timeouts = 0
     with open(outp, "w") as out:
@@ -56,11 +60,11 @@ def main():
                 out.write(json.dumps({"skipped": "after 3 timeouts in this worker"}) + "\n")
                 continue
             try:
-                signal.alarm(tmo)
+                signal.setitimer(signal.ITIMER_REAL, tmo, max(1.0, tmo / 4))
                 try:
                     res = impl(case)
                 finally:
-                    signal.alarm(0)
+                    signal.setitimer(signal.ITIMER_REAL, 0)
             except CaseTimeout:
                 res = {"exc": "TIMEOUT"}
                 timeouts += 1
